@@ -77,6 +77,8 @@ def run(ctx):
     kindc = collections.Counter()
     bad, corr = [], []
     nontriv = set()
+    sane = collections.Counter()
+    insane_example = None
     for i, ((cfg, text), kind, r) in enumerate(zip(cases, kinds, reals)):
         kindc[kind.split(":")[0]] += 1
         cls = pf.outcome_class(r)
@@ -92,6 +94,11 @@ def run(ctx):
                         ctx.known_hits.append("%s %s (e.g. %s %r)" % (hit["id"], hit["what"], cfg, text[:60]))
                 else:
                     bad.append((cfg, text, kind, r, s, m, v))
+        if m is not None and "sane" in m:
+            # the lexical hypothesis of C05_blocks_accounted, evaluated by the driver on this input's tokens
+            sane[str(m["sane"]).lower()] += 1
+            if m["sane"] is False and insane_example is None:
+                insane_example = {"cfg": cfg, "text": text[:200]}
         if m is not None and not io.outcome_equal(r, m):
             corr.append((cfg, text, kind, r, m))
         if cls == "ok" and len(text) > 3:
@@ -139,6 +146,10 @@ def run(ctx):
         "theorems": lean["names"],
         "lean_problems": lean["problems"],
         "correspondence_disagreements": len(corr),
+        "sane_hypothesis": {"holds": sane.get("true", 0), "fails": sane.get("false", 0), "example_where_it_fails": insane_example,
+                            "meaning": "Sane (a block keyword token is not also white space, a delimiter, a value, units, "
+                                       "a name or END) is the hypothesis of C05_blocks_accounted / C05_unbalanced_rejected; "
+                                       "the driver evaluates it on the token list of every input"},
         "unlisted_predicate_failures": len(bad),
     }
     return core.finish(ctx, "proof", lean["obligations"], lean["discharged"],
